@@ -1,0 +1,334 @@
+// Copyright 2026 Dolthub, Inc.
+//
+// Licensed under the Apache License, Version 2.0 (the "License");
+// you may not use this file except in compliance with the License.
+// You may obtain a copy of the License at
+//
+//     http://www.apache.org/licenses/LICENSE-2.0
+//
+// Unless required by applicable law or agreed to in writing, software
+// distributed under the License is distributed on an "AS IS" BASIS,
+// WITHOUT WARRANTIES OR CONDITIONS OF ANY KIND, either express or implied.
+// See the License for the specific language governing permissions and
+// limitations under the License.
+
+//go:build verif
+
+package nbs
+
+// Accessors used by the /verif correspondence harness (properties C01 and
+// C06). Add-only; compiled only with -tags verif. Nothing here changes the
+// behavior of the package: every function forwards to the unexported table
+// writer / index / reader / conjoin / archive code.
+
+import (
+	"bytes"
+	"context"
+	"errors"
+	"io"
+	"path/filepath"
+
+	"golang.org/x/sync/errgroup"
+
+	dherrors "github.com/dolthub/dolt/go/libraries/utils/errors"
+	"github.com/dolthub/dolt/go/store/chunks"
+	"github.com/dolthub/dolt/go/store/hash"
+)
+
+// VerifCrc is the checksum stored after every chunk record.
+func VerifCrc(b []byte) uint32 { return crc(b) }
+
+// VerifWriteTable writes |cs| with the real tableWriter (snappy compression)
+// and returns the table file bytes and its name.
+func VerifWriteTable(cs []chunks.Chunk) ([]byte, hash.Hash, error) {
+	if len(cs) == 0 {
+		return nil, hash.Hash{}, errors.New("no chunks")
+	}
+	var total uint64
+	for _, c := range cs {
+		total += uint64(len(c.Data()))
+	}
+	buff := make([]byte, maxTableSize(uint64(len(cs)), total))
+	tw := newTableWriter(buff, nil)
+	for _, c := range cs {
+		tw.addChunk(c.Hash(), c.Data())
+	}
+	n, name, err := tw.finish()
+	if err != nil {
+		return nil, hash.Hash{}, err
+	}
+	return buff[:n], name, nil
+}
+
+type verifReaderAt struct {
+	br *bytes.Reader
+}
+
+func (r verifReaderAt) Close() error                   { return nil }
+func (r verifReaderAt) clone() (tableReaderAt, error) { return r, nil }
+func (r verifReaderAt) Reader(ctx context.Context) (io.ReadCloser, error) {
+	c := *r.br
+	return io.NopCloser(&c), nil
+}
+func (r verifReaderAt) ReadAtWithStats(ctx context.Context, p []byte, off int64, stats *Stats) (int, error) {
+	return r.br.ReadAt(p, off)
+}
+
+// VerifTable is a tableReader over an in-memory table file.
+type VerifTable struct {
+	tr  tableReader
+	idx onHeapTableIndex
+}
+
+// VerifOpenTable parses the index of |file| (parseTableIndexByCopy) and wraps
+// it in a tableReader.
+func VerifOpenTable(ctx context.Context, file []byte) (*VerifTable, error) {
+	q := NewUnlimitedMemQuotaProvider()
+	idx, err := parseTableIndexByCopy(ctx, file, q)
+	if err != nil {
+		return nil, err
+	}
+	tr, err := newTableReader(ctx, idx, verifReaderAt{bytes.NewReader(file)}, fileBlockSize)
+	if err != nil {
+		idx.Close()
+		return nil, err
+	}
+	return &VerifTable{tr: tr, idx: idx}, nil
+}
+
+func (t *VerifTable) Close() error { return t.tr.close() }
+
+func (t *VerifTable) Count() uint32 { return t.tr.count() }
+
+func (t *VerifTable) UncompressedLen() uint64 {
+	n, _ := t.tr.uncompressedLen()
+	return n
+}
+
+// Prefixes and Ordinals expose the prefix map in index order.
+func (t *VerifTable) Prefixes(ctx context.Context) ([]uint64, error) {
+	p, cleanup, err := t.idx.prefixes(ctx)
+	if err != nil {
+		return nil, err
+	}
+	defer cleanup()
+	return append([]uint64(nil), p...), nil
+}
+
+func (t *VerifTable) Ordinals(ctx context.Context) ([]uint32, error) {
+	o, cleanup, err := t.idx.ordinals(ctx)
+	if err != nil {
+		return nil, err
+	}
+	defer cleanup()
+	return append([]uint32(nil), o...), nil
+}
+
+func (t *VerifTable) Lookup(h hash.Hash) (offset uint64, length uint32, found bool, err error) {
+	e, ok, err := t.idx.lookup(&h)
+	if err != nil || !ok {
+		return 0, 0, false, err
+	}
+	return e.Offset(), e.Length(), true, nil
+}
+
+func (t *VerifTable) Has(h hash.Hash) (bool, error) {
+	ok, _, err := t.tr.has(h, nil)
+	return ok, err
+}
+
+func (t *VerifTable) Get(ctx context.Context, h hash.Hash) ([]byte, error) {
+	d, _, err := t.tr.get(ctx, h, nil, NewStats())
+	return d, err
+}
+
+// HasMany runs tableReader.hasMany on the requests in the given order (the
+// caller sorts by prefix) with the given initial has flags.
+func (t *VerifTable) HasMany(addrs []hash.Hash, has []bool) ([]bool, bool, error) {
+	recs := make([]hasRecord, len(addrs))
+	for i := range addrs {
+		recs[i] = hasRecord{a: &addrs[i], prefix: addrs[i].Prefix(), order: i, has: has[i]}
+	}
+	remaining, _, err := t.tr.hasMany(recs, nil)
+	out := make([]bool, len(recs))
+	for i := range recs {
+		out[i] = recs[i].has
+	}
+	return out, remaining, err
+}
+
+// GetMany runs tableReader.getMany (or getManyCompressed) on the requests in
+// the given order with the given initial found flags.
+func (t *VerifTable) GetMany(ctx context.Context, addrs []hash.Hash, found []bool, compressed bool) ([]chunks.Chunk, []bool, bool, error) {
+	recs := make([]getRecord, len(addrs))
+	for i := range addrs {
+		recs[i] = getRecord{a: &addrs[i], prefix: addrs[i].Prefix(), found: found[i]}
+	}
+	var out []chunks.Chunk
+	var cbErr error
+	ch := make(chan chunks.Chunk, len(addrs)+1)
+	eg, ectx := errgroup.WithContext(ctx)
+	var remaining bool
+	var err error
+	if compressed {
+		remaining, _, err = t.tr.getManyCompressed(ectx, eg, recs, func(_ context.Context, c ToChunker) {
+			chk, e := c.ToChunk()
+			if e != nil {
+				cbErr = e
+				return
+			}
+			ch <- chk
+		}, nil, NewStats())
+	} else {
+		remaining, _, err = t.tr.getMany(ectx, eg, recs, func(_ context.Context, c *chunks.Chunk) { ch <- *c }, nil, NewStats())
+	}
+	err = errors.Join(err, eg.Wait(), cbErr)
+	close(ch)
+	for c := range ch {
+		out = append(out, c)
+	}
+	fl := make([]bool, len(recs))
+	for i := range recs {
+		fl[i] = recs[i].found
+	}
+	return out, fl, remaining, err
+}
+
+func (t *VerifTable) IterateAll(ctx context.Context) ([]chunks.Chunk, error) {
+	var out []chunks.Chunk
+	err := t.tr.iterateAllChunks(ctx, func(c chunks.Chunk) { out = append(out, c) }, NewStats())
+	return out, err
+}
+
+// VerifConjoinTables runs planRangeCopyConjoin over the given table files and
+// assembles the conjoined file the way fsTablePersister.ConjoinAll does (each
+// source's chunk-record region in plan order, then the merged index). |order|
+// is the position in |files| of each source in plan order.
+func VerifConjoinTables(ctx context.Context, files [][]byte) (out []byte, order []int, count uint32, err error) {
+	q := NewUnlimitedMemQuotaProvider()
+	srcs := make(chunkSources, len(files))
+	names := map[hash.Hash]int{}
+	for i, f := range files {
+		var name hash.Hash
+		name[0] = byte(i + 1)
+		name[19] = byte(i + 1)
+		names[name] = i
+		cs, e := newReaderFromIndexData(ctx, q, f, name, verifReaderAt{bytes.NewReader(f)}, fileBlockSize)
+		if e != nil {
+			return nil, nil, 0, e
+		}
+		srcs[i] = cs
+	}
+	defer func() {
+		for _, s := range srcs {
+			if s != nil {
+				s.close()
+			}
+		}
+	}()
+	plan, err := planRangeCopyConjoin(ctx, srcs, q, NewStats())
+	if err != nil {
+		return nil, nil, 0, err
+	}
+	defer plan.closer()
+	var buf bytes.Buffer
+	for _, sws := range plan.sources.sws {
+		r, _, e := sws.source.reader(ctx, dherrors.FatalBehaviorError)
+		if e != nil {
+			return nil, nil, 0, e
+		}
+		n, e := io.CopyN(&buf, r, int64(sws.dataLen))
+		r.Close()
+		if e != nil || uint64(n) != sws.dataLen {
+			return nil, nil, 0, errors.Join(e, errors.New("failed to copy all data"))
+		}
+		order = append(order, names[sws.source.hash()])
+	}
+	buf.Write(plan.mergedIndex)
+	return buf.Bytes(), order, plan.chunkCount, nil
+}
+
+// VerifProllyBinSearch is the archive index interpolation search.
+func VerifProllyBinSearch(slice []uint64, target uint64) int {
+	return prollyBinSearch(slice, target)
+}
+
+// VerifArchive is an archive chunk source built by the ArchiveStreamWriter.
+type VerifArchive struct {
+	acs *archiveChunkSource
+}
+
+// VerifBuildArchive writes |cs| through the ArchiveStreamWriter (snappy chunks
+// until enough samples exist for a dictionary, zstd afterwards) into |dir|
+// and opens the result.
+func VerifBuildArchive(ctx context.Context, dir string, cs []chunks.Chunk) (*VerifArchive, error) {
+	asw, err := NewArchiveStreamWriter(dir)
+	if err != nil {
+		return nil, err
+	}
+	for _, c := range cs {
+		if _, err = asw.AddChunk(ChunkToCompressedChunk(c)); err != nil {
+			return nil, err
+		}
+	}
+	_, name, err := asw.Finish()
+	if err != nil {
+		return nil, err
+	}
+	if err = asw.FlushToFile(filepath.Join(dir, name)); err != nil {
+		return nil, err
+	}
+	h, ok := hash.MaybeParse(name[:hash.StringLen])
+	if !ok {
+		return nil, errors.New("bad archive name " + name)
+	}
+	acs, err := newArchiveChunkSource(ctx, dir, h, uint32(len(cs)), NewUnlimitedMemQuotaProvider(), false, noopRefCounter{}, NewStats())
+	if err != nil {
+		return nil, err
+	}
+	return &VerifArchive{acs: acs}, nil
+}
+
+func (a *VerifArchive) Close() error  { return a.acs.close() }
+func (a *VerifArchive) Count() uint32 { return a.acs.count() }
+
+func (a *VerifArchive) Has(h hash.Hash) (bool, error) {
+	ok, _, err := a.acs.has(h, nil)
+	return ok, err
+}
+
+func (a *VerifArchive) Get(ctx context.Context, h hash.Hash) ([]byte, error) {
+	d, _, err := a.acs.get(ctx, h, nil, NewStats())
+	return d, err
+}
+
+func (a *VerifArchive) HasMany(addrs []hash.Hash, has []bool) ([]bool, bool, error) {
+	recs := make([]hasRecord, len(addrs))
+	for i := range addrs {
+		recs[i] = hasRecord{a: &addrs[i], prefix: addrs[i].Prefix(), order: i, has: has[i]}
+	}
+	remaining, _, err := a.acs.hasMany(recs, nil)
+	out := make([]bool, len(recs))
+	for i := range recs {
+		out[i] = recs[i].has
+	}
+	return out, remaining, err
+}
+
+func (a *VerifArchive) IterateAll(ctx context.Context) ([]chunks.Chunk, error) {
+	var out []chunks.Chunk
+	err := a.acs.iterateAllChunks(ctx, func(c chunks.Chunk) { out = append(out, c) }, NewStats())
+	return out, err
+}
+
+// VerifArchiveIndex returns the archive's prefix array and, per index position,
+// the 12-byte suffix.
+func (a *VerifArchive) VerifArchiveIndex() (prefixes []uint64, suffixes [][]byte) {
+	n := a.acs.aRdr.footer.chunkCount
+	for i := uint32(0); i < n; i++ {
+		prefixes = append(prefixes, a.acs.aRdr.indexReader.getPrefix(i))
+		s := a.acs.aRdr.indexReader.getSuffix(i)
+		suffixes = append(suffixes, append([]byte(nil), s[:]...))
+	}
+	return
+}
